@@ -1,6 +1,7 @@
 /- helper lemmas for C25: windows of a list, closed forms of the index / length expressions STRING_SLICE builds -/
 import PonyVerif.Model.SqlStr
 namespace PonyVerif.Model.SqlStr
+open PonyVerif.Py
 
 theorem sliceNat_getElem? (s : List Char) (a l k : Nat) :
     (sliceNat s a l)[k]? = if k < l then s[a + k]? else none := by
@@ -77,7 +78,7 @@ theorem pySlice_eq_win_none (s : List Char) (a : Int) :
   unfold adjIdx; omega
 
 /-- position `k` (in range) belongs to Python's `s[a:b]` -/
-theorem adjIdx_le (n a k : Int) (hn : 0 ≤ n) (hk0 : 0 ≤ k) (hkn : k < n) :
+theorem adjIdx_le (n a k : Int) (_hn : 0 ≤ n) (hk0 : 0 ≤ k) (hkn : k < n) :
     (adjIdx n a ≤ k) ↔ ((a < 0 ∧ a + n ≤ k) ∨ (0 ≤ a ∧ a ≤ k)) := by
   unfold adjIdx; split <;> split <;> omega
 
@@ -341,4 +342,244 @@ theorem eval_lenSql_ee (he : eval d env e = .ok (.str s)) {x : Sql} {a : Int} (h
     simp [lenSql, lenVal, maxz, eval, he, hx, hy, hidx, lengthV, arithV, cmpV, condV, andV, greatestV, bind, Except.bind, h0, h0', h1, h1'] <;> omega
 
 end evalLemmas
+/-! ### indexes -/
+
+theorem pyIndexStr_eq_win (s : List Char) (i : Int) :
+    pyIndexStr s i = win s (if i < 0 then i + s.length else i) ((if i < 0 then i + s.length else i) + 1) := by
+  unfold pyIndexStr pyIndex
+  simp only []
+  generalize hk : (if i < 0 then i + (s.length : Int) else i) = k
+  by_cases hr : k < 0 ∨ k ≥ s.length
+  · rw [if_pos hr]; simp only []
+    unfold win
+    rw [sliceNat_nil]; omega
+  · rw [if_neg hr]
+    have hlt : k.toNat < s.length := by omega
+    have : s[k.toNat]? = some s[k.toNat] := List.getElem?_eq_getElem hlt
+    rw [this]; simp only []
+    unfold win
+    apply List.ext_getElem?; intro m
+    rw [sliceNat_getElem?]
+    have e1 : (k + 1).toNat - k.toNat = 1 := by omega
+    rw [e1]
+    cases m with
+    | zero => simp [this]
+    | succ m => simp
+
+theorem index_pg (s : List Char) (i : Int) :
+    substr3V .pg s (indexVal .pg s.length i) 1 = .ok (.str (pyIndexStr s i)) := by
+  rw [pyIndexStr_eq_win]
+  simp only [substr3V, indexVal_pg]
+  rw [if_neg (by omega)]
+  congr 2
+  show win s _ _ = _
+  apply win_congr; intro k _ _
+  omega
+
+theorem index_mysql (s : List Char) (i : Int) :
+    substr3V .mysql s (indexVal .mysql s.length i) 1 = .ok (.str (pyIndexStr s i)) := by
+  rw [pyIndexStr_eq_win]
+  obtain ⟨p, hp⟩ : ∃ p, p = indexVal .mysql s.length i := ⟨_, rfl⟩
+  rw [← hp]
+  simp only [indexVal_other .mysql (by decide)] at hp
+  simp only [substr3V]
+  rw [if_neg (by omega)]
+  by_cases h2 : p > 0
+  · rw [if_pos h2]; congr 2
+    rw [sliceNat_eq_win _ _ _ (by omega) (by omega)]
+    apply win_congr; intro k _ _; omega
+  · rw [if_neg h2]
+    by_cases h3 : -p > (s.length : Int)
+    · rw [if_pos h3]; congr 2
+      rw [← win_zero s]
+      apply win_congr; intro k _ _; omega
+    · rw [if_neg h3]; congr 2
+      rw [sliceNat_eq_win _ _ _ (by omega) (by omega)]
+      apply win_congr; intro k _ _; omega
+
+theorem index_oracle (s : List Char) (i : Int) :
+    substr3V .oracle s (indexVal .oracle s.length i) 1 = .ok (strVal .oracle (pyIndexStr s i)) := by
+  apply oracle_of_mysql3 _ _ _ (indexVal_ne_zero _ (by decide) _ _)
+  have e1 : indexVal .oracle s.length i = indexVal .mysql s.length i := by
+    rw [indexVal_other _ (by decide), indexVal_other _ (by decide)]
+  rw [e1]; exact index_mysql s i
+
+theorem sliceNat_int (s : List Char) (A L : Int) (a l : Nat) (ha : a = A.toNat) (hl : l = L.toNat) (hA : 0 ≤ A) (hL : 0 ≤ L) :
+    sliceNat s a l = win s A (A + L) := by
+  rw [ha, hl]; exact sliceNat_eq_win s A L hA hL
+
+theorem index_sqlite (s : List Char) (i : Int) :
+    substr3V .sqlite s (indexVal .sqlite s.length i) 1 = .ok (.str (pyIndexStr s i)) := by
+  rw [pyIndexStr_eq_win]
+  obtain ⟨p, hp⟩ : ∃ p, p = indexVal .sqlite s.length i := ⟨_, rfl⟩
+  rw [← hp]
+  simp only [indexVal_other .sqlite (by decide)] at hp
+  simp only [substr3V, sqliteSubstr]
+  congr 2
+  by_cases h1 : p < 0
+  · by_cases h2 : p + (s.length : Int) < 0
+    · simp [h1, h2]
+      rw [sliceNat_nil _ _ _ (Or.inr (by omega)), ← win_zero s]
+      apply win_congr; intro k _ _; omega
+    · simp [h1, h2]
+      refine (sliceNat_int s (p + s.length) 1 _ _ (by omega) (by omega) (by omega) (by omega)).trans ?_
+      apply win_congr; intro k _ _; omega
+  · have h3 : p > 0 := by omega
+    simp [h1, h3]
+    refine (sliceNat_int s (p - 1) 1 _ _ (by omega) (by omega) (by omega) (by omega)).trans ?_
+    apply win_congr; intro k _ _; omega
+
+/-! ### encoding facts used by the bridge; symbolic evaluation core; `__getitem__` pinning -/
+
+theorem getItem_enc_zero (x : Sql) : PyVal.getItem x.enc (.int 0) = .ok (.str x.tag) := by
+  cases x <;> rfl
+
+theorem getItem_enc_value (i : Int) : PyVal.getItem (.list [.str "VALUE", .int i]) (.int 1) = .ok (.int i) := rfl
+theorem getItem_enc_value0 (i : Int) : PyVal.getItem (.list [.str "VALUE", .int i]) (.int 0) = .ok (.str "VALUE") := rfl
+
+theorem tag_eq_value (x : Sql) : (x.tag == "VALUE") = x.isValue := by
+  cases x <;> simp [Sql.tag, Sql.isValue]
+
+theorem name_is_pg (d : Dialect) : (d.name == "PostgreSQL") = decide (d = .pg) := by
+  cases d <;> simp [Dialect.name]
+
+theorem isNone_enc (x : Sql) : PyVal.isNone x.enc = false := by cases x <;> rfl
+
+theorem slice_core (d : Dialect) (env : Env) (e : Sql) (s : List Char) (start stop : Arg) (i j : Option Int)
+    (hN : lengthOf d s = s.length)
+    (he : eval d env e = .ok (.str s)) (hi : Arg.denotes d env start i) (hj : Arg.denotes d env stop j)
+    (H3 : ∀ (raw : Bool) (a b : Int), (raw = true → start.isConstStart = true ∧ stop.isConstStop = true) →
+          (raw = false → ¬ (start.isConstStart = true ∧ stop.isConstStop = true)) → i.getD 0 = a → j = some b →
+          substr3V d s (indexVal d s.length a) (lenVal d s.length raw a b) = .ok (strVal d (pySlice s (some a) (some b))))
+    (H2 : ∀ a : Int, i.getD 0 = a → j = none →
+          substr2V d s (indexVal d s.length a) = .ok (strVal d (pySlice s (some a) none))) :
+    eval d env (stringSliceT d e start stop) = .ok (strVal d (pySlice s i j)) := by
+  rcases start with _ | a | x <;> rcases stop with _ | b | y <;> simp only [Arg.denotes] at hi hj
+  · -- omitted / omitted
+    subst hi; subst hj
+    have hidx := eval_indexSql_const he 0
+    simp only [stringSliceT, startNorm, lenSql, eval, he, hidx, substr2Args, bind, Except.bind, hN]
+    rw [pySlice_none_start]; exact H2 0 rfl rfl
+  · -- omitted / const
+    subst hi; subst hj
+    have hidx := eval_indexSql_const he 0
+    obtain ⟨l, hl, hlv⟩ := eval_lenSql_cc he 0 b hidx
+    simp only [stringSliceT, startNorm, hl, eval, he, hidx, hlv, substr3Args, bind, Except.bind, hN]
+    rw [pySlice_none_start]; exact H3 true 0 b (fun _ => ⟨rfl, rfl⟩) (by simp) rfl rfl
+  · -- omitted / expr
+    subst hi; obtain ⟨b, hy, rfl⟩ := hj
+    have hidx := eval_indexSql_const he 0
+    obtain ⟨l, hl, hlv⟩ := eval_lenSql_ce he 0 hy hidx
+    simp only [stringSliceT, startNorm, hl, eval, he, hidx, hlv, substr3Args, bind, Except.bind, hN]
+    rw [pySlice_none_start]; exact H3 false 0 b (by simp) (by simp [Arg.isConstStop]) rfl rfl
+  · -- const / omitted
+    subst hi; subst hj
+    have hidx := eval_indexSql_const he a
+    simp only [stringSliceT, startNorm, lenSql, eval, he, hidx, substr2Args, bind, Except.bind, hN]
+    exact H2 a rfl rfl
+  · -- const / const
+    subst hi; subst hj
+    have hidx := eval_indexSql_const he a
+    obtain ⟨l, hl, hlv⟩ := eval_lenSql_cc he a b hidx
+    simp only [stringSliceT, startNorm, hl, eval, he, hidx, hlv, substr3Args, bind, Except.bind, hN]
+    exact H3 true a b (fun _ => ⟨rfl, rfl⟩) (by simp) rfl rfl
+  · -- const / expr
+    subst hi; obtain ⟨b, hy, rfl⟩ := hj
+    have hidx := eval_indexSql_const he a
+    obtain ⟨l, hl, hlv⟩ := eval_lenSql_ce he a hy hidx
+    simp only [stringSliceT, startNorm, hl, eval, he, hidx, hlv, substr3Args, bind, Except.bind, hN]
+    exact H3 false a b (by simp) (by simp [Arg.isConstStop]) rfl rfl
+  · -- expr / omitted
+    obtain ⟨a, hx, rfl⟩ := hi; subst hj
+    have hidx := eval_indexSql_expr he hx
+    simp only [stringSliceT, startNorm, lenSql, eval, he, hidx, substr2Args, bind, Except.bind, hN]
+    exact H2 a rfl rfl
+  · -- expr / const
+    obtain ⟨a, hx, rfl⟩ := hi; subst hj
+    have hidx := eval_indexSql_expr he hx
+    obtain ⟨l, hl, hlv⟩ := eval_lenSql_ec he hx b hidx
+    simp only [stringSliceT, startNorm, hl, eval, he, hidx, hlv, substr3Args, bind, Except.bind, hN]
+    exact H3 false a b (by simp) (by simp [Arg.isConstStart]) rfl rfl
+  · -- expr / expr
+    obtain ⟨a, hx, rfl⟩ := hi; obtain ⟨b, hy, rfl⟩ := hj
+    have hidx := eval_indexSql_expr he hx
+    obtain ⟨l, hl, hlv⟩ := eval_lenSql_ee he hx hy hidx
+    simp only [stringSliceT, startNorm, hl, eval, he, hidx, hlv, substr3Args, bind, Except.bind, hN]
+    exact H3 false a b (by simp) (by simp [Arg.isConstStart]) rfl rfl
+
+theorem pySlice_whole (s : List Char) (i : Option Int) (h : i.getD 0 = 0) : pySlice s i none = s := by
+  have : pySlice s i none = pySlice s (some 0) none := by
+    cases i with
+    | none => exact pySlice_none_start s none
+    | some a => simp at h; rw [h]
+  rw [this, pySlice_eq_win_none]
+  unfold win adjIdx
+  have : (s.length : Int).toNat - (if (0:Int) < 0 then (if 0 + (s.length : Int) < 0 then 0 else 0 + (s.length : Int))
+      else (if (0:Int) ≥ s.length then (s.length : Int) else 0)).toNat = s.length := by omega
+  rw [this]
+  have : (if (0:Int) < 0 then (if 0 + (s.length : Int) < 0 then 0 else 0 + (s.length : Int))
+      else (if (0:Int) ≥ s.length then (s.length : Int) else 0)).toNat = 0 := by omega
+  rw [this]
+  exact sliceNat_whole s _ (Nat.le_refl _)
+
+theorem pin_start (start : GArg) : (paramToConst [] true start).1 = start.pin 0 := by
+  cases start <;> simp [paramToConst, GArg.pin, List.lookup]
+
+theorem pin_stop (start stop : GArg) (hk : keysConsistent start stop) (hv : ∀ k v, start = .param k v → v ≠ none) :
+    (paramToConst (paramToConst [] true start).2 false stop).1 = stop.pin (-1) := by
+  rcases stop with _ | b | ⟨k', v'⟩ | y
+  · simp [paramToConst, GArg.pin]
+  · simp [paramToConst, GArg.pin]
+  · rcases start with _ | a | ⟨k, v⟩ | x
+    · simp [paramToConst, GArg.pin]
+    · simp [paramToConst, GArg.pin]
+    · have hvn := hv k v rfl
+      obtain ⟨x, rfl⟩ : ∃ x, v = some x := by cases v <;> simp_all
+      by_cases hkk : k' = k
+      · have := hk hkk.symm; subst hkk; subst this
+        simp [paramToConst, GArg.pin, List.lookup]
+      · have : (k' == k) = false := by simp [hkk]
+        simp [paramToConst, GArg.pin, List.lookup, this]
+    · simp [paramToConst, GArg.pin, List.lookup]
+  · simp [paramToConst, GArg.pin]
+
+theorem pin_toArg (g : GArg) (dflt : Int) : (g.pin dflt).toArg = g.asArg dflt := by
+  cases g <;> simp [GArg.pin, GArg.toArg, GArg.asArg]
+
+theorem pin_known (g : GArg) (dflt : Int) : knownValue dflt (g.pin dflt) = g.known dflt := by
+  cases g <;> simp [GArg.pin, knownValue, GArg.known]
+
+theorem getitemSlice_fst (e : Sql) (start stop : GArg) (hk : keysConsistent start stop)
+    (hv : ∀ k v, start = .param k v → v ≠ none) :
+    (getitemSlice (.expr e) start stop []).1 =
+      if shortcut start stop then .whole else .node (start.asArg 0) (stop.asArg (-1)) := by
+  unfold getitemSlice shortcut
+  simp only [pin_start, pin_stop start stop hk hv, pin_known, pin_toArg]
+  split <;> rename_i h <;> simp [h]
+
+theorem denotes_asArg (d : Dialect) (env : Env) (g : GArg) (dflt : Int) (v : Option Int)
+    (h : g.denotes d env v) : Arg.denotes d env (g.asArg dflt) v := by
+  rcases g with _ | c | ⟨k, pv⟩ | x <;> simp only [GArg.denotes, GArg.asArg, Arg.denotes] at h ⊢
+  · exact h
+  · exact h
+  · obtain ⟨rfl, hne⟩ := h
+    cases v with
+    | none => exact absurd rfl hne
+    | some x => rfl
+  · exact h
+
+theorem known_zero_denotes (d : Dialect) (env : Env) (g : GArg) (i : Option Int)
+    (h : g.denotes d env i) (hk : g.known 0 = some 0) : i.getD 0 = 0 := by
+  rcases g with _ | c | ⟨k, pv⟩ | x <;> simp only [GArg.denotes, GArg.known] at h hk
+  · subst h; rfl
+  · subst h; simpa using hk
+  · obtain ⟨rfl, _⟩ := h; simpa using hk
+  · cases hk
+
+theorem strVal_of_ne (d : Dialect) (s : List Char) (h : d = .oracle → s ≠ []) : strVal d s = .str s := by
+  unfold strVal
+  by_cases hd : d = .oracle
+  · simp [hd, h hd]
+  · simp [hd]
+
 end PonyVerif.Model.SqlStr
